@@ -152,6 +152,33 @@ theorem C12_flat_rule_volume (a D L : Nat) (ha : 0 < a) (t : Tree) (hwf : WF a t
 example : ((flat 0 (.node 9 [.leaf 1, .node 2 [.leaf 5, .leaf 6, .leaf 7, .leaf 8], .leaf 3, .leaf 4])).filter (keepCell 1)).map
     (fun c => (c.1, c.2.2)) = [(1, 1), (1, 2), (1, 3), (1, 4)] := by decide
 
+/-- **C12 (rows of a level-limited load)**: the stored cells that pass the loader's per-cell rule for the cap `L` *and* the
+    level function `p` are exactly the leaves of the tree truncated at `L` whose level satisfies `p`, in file order -/
+theorem C12_rows (L : Nat) (p : Nat → Bool) (t : Tree) :
+    ((flat 0 t).filter (fun c => keepCell L c && p c.1)).map (fun c => (c.1, c.2.2)) =
+      (leaves 0 (truncate L 0 t)).filter (fun q => p q.1) := by
+  rw [← C12_flat_rule_is_truncation L 0 t (Nat.zero_le _), List.filter_map]
+  congr 1
+  rw [List.filter_filter]
+  apply List.filter_congr
+  intro c _
+  simp [Bool.and_comm]
+
+/-- **C12 (no holes)**: when the level function accepts every level up to the cap, the rows are all the leaves of the
+    truncated tree: they fill the domain exactly once -/
+theorem C12_rows_tile (a D L : Nat) (ha : 0 < a) (p : Nat → Bool) (hp : ∀ l, l ≤ L → p l = true)
+    (t : Tree) (hwf : WF a t) (hfit : fits D 0 t) :
+    vol a D (((flat 0 t).filter (fun c => keepCell L c && p c.1)).map (fun c => (c.1, c.2.2))) = a ^ D := by
+  rw [C12_rows]
+  have hall : (leaves 0 (truncate L 0 t)).filter (fun q => p q.1) = leaves 0 (truncate L 0 t) := by
+    apply List.filter_eq_self.mpr
+    intro q hq
+    rcases truncate_levels L 0 t (Nat.zero_le _) q hq with h | h
+    · exact hp _ h
+    · exact hp _ (by omega)
+  rw [hall]
+  exact C12_truncated_volume a D L ha t hwf hfit
+
 /-- `find_max_amr_level`: `lmaxOf` never exceeds levelmax, and a predicate `level <= k` gives min k levelmax -/
 theorem C12_lmax_le (o : Ramses.Output) (preds : List Loader.Pred) : LoadEngine.lmaxOf o preds ≤ o.levelmax := by
   unfold LoadEngine.lmaxOf
